@@ -27,6 +27,7 @@ UNITS_ORACLE = {
     "s": 3, "second": 3, "seconds": 3, "sec": 3, "ms": 4, "millisecond": 4, "milliseconds": 4, "μs": 5, "us": 5,
     "microsecond": 5, "microseconds": 5, "ns": 6, "nanosecond": 6, "nanoseconds": 6,
 }
+MAX_DAYS = 32768 * 36525 + 1
 DISPLAY_UNITS = ["days", "h", "min", "s", "ms", "μs", "ns"]
 METHODS = ["days", "hours", "minutes", "seconds", "milliseconds", "microseconds", "nanoseconds"]
 
@@ -374,12 +375,77 @@ def r5_text_roundtrip(chk, F, tier):
     chk.floor(rule, "Display templates run through the reader", n, 70)
 
 
+def r6_subdivision(chk, F):
+    """subdivision(unit) hands out component k of the same decomposition, as a duration of that unit: the sibling accessor must
+    keep the roles decompose() assigns (i64 * Unit taken as the exact product, C18.R1)."""
+    from .c10 import Reader
+    from ..sym import St as _St, Ref as _Ref
+    rule = "C11.R6"
+    R = Reader(F)
+    eng, D = R.eng, R.D
+    fn = F.find1(self_ty="Duration", name="subdivision", trait="")
+    dec = F.find1(self_ty="Duration", name="decompose", trait="")
+    want = {"Day": 1, "Hour": 2, "Minute": 3, "Second": 4, "Millisecond": 5, "Microsecond": 6, "Nanosecond": 7, "Week": None, "Century": None}
+    n = 0
+    for uname, k in want.items():
+        eng.reset()
+        R.install()
+        def h_dec(e, st_, c, a, dest_tid, t):
+            # decompose()'s outputs with the ranges C11.R1 establishes for them
+            v = e.fresh(dest_tid, ("decompose", tuple(e.term(x) for x in a)))
+            lims = [None, MAX_DAYS, 23, 59, 59, 999, 999, 999]
+            e.add_cons(st_, [(v.fs[i].lin - lim, "<=") for i, lim in enumerate(lims) if lim is not None and isinstance(v.fs[i], Int)])
+            st_.trace.append(("rec", "decompose", list(a), v))
+            return [(st_, v)]
+        eng.hooks_by_id[dec["id"]] = h_dec
+        st = _St()
+        eng._pending_cells = []
+        dtid = fn["locals"][1]["ty"]
+        dv = eng.sym(dtid, "self")
+        for k2, inner in eng._pending_cells:
+            st.store[k2] = inner
+        u = Enum(R.unit_tid, eng.variant_index(R.unit_tid, uname), ())
+        finals = eng.run(fn, args=[dv, u], st=st)
+        R.uninstall()
+        n += 1
+        ok = bool(finals)
+        why = []
+        for s2 in finals:
+            if s2.end != "return":
+                ok = False
+                why.append("path ends in %s" % s2.end)
+                continue
+            r = s2.ret
+            nm = eng.types[r.tid]["variants"][r.vi]["name"] if isinstance(r, Enum) else None
+            if k is None:
+                if nm != "None":
+                    ok = False
+                    why.append("returns %s" % nm)
+                continue
+            calls = recs(s2, "decompose")
+            if nm != "Some" or len(calls) != 1:
+                ok = False
+                why.append("returns %s after %d decompositions" % (nm, len(calls)))
+                continue
+            comp = calls[0][1].fs[k]
+            T = D.total(r.fs[0])
+            st2 = s2.clone()
+            D.close(st2, [T])
+            if not (isinstance(comp, Int) and D.implies_eq(st2, T, comp.lin.scale(UNIT_FACTORS[uname]))):
+                ok = False
+                why.append("is not output %d of decompose() times the unit" % k)
+        chk.ob(rule, "Duration::subdivision", "[%s]->%s" % (uname, "None" if k is None else "decompose().%d*%s" % (k, uname)), ok, "finite map + operand flow",
+               detail=None if ok else sorted(set(why)))
+    chk.floor(rule, "units", n, 9)
+
+
 def run(chk, F, tier):
     r1_decompose(chk, F)
     r2_chain(chk, F)
     r3_display(chk, F)
     r4_serde(chk, F)
     r5_text_roundtrip(chk, F, tier)
+    r6_subdivision(chk, F)
     eng, D = ctx(F)
     chk.extra["engine_stats"] = dict(eng.stats)
     chk.assumptions.append("fractional values / [+-]HH:MM[:SS] offsets 'with the value they denote' go through f64: C18's clauses, not decided")
